@@ -1796,7 +1796,6 @@ class Dict(Generic, ValueSpecBase):
         self._default = copy.deepcopy(base._default)  # pylint: disable=protected-access
       else:
         self._schema.extend(base.schema)
-        self._default = self._schema.apply({}, allow_partial=True)
 
   def _is_compatible(self, other: 'Dict') -> bool:
     """Dict specific compatibility check."""
